@@ -54,17 +54,43 @@ TEMPLATES = [
 
 
 def probe_unregistered(fn, p, q):
-    """FeatureNotSupported on some template -> 'refused'; a returned value -> 'returned'; else 'inconclusive'."""
+    """FeatureNotSupported on some template -> 'refused'; a returned value -> 'returned'; a call that reached
+    ndpoly.__array_function__ for this unregistered function and left it in any other way than by
+    FeatureNotSupported -> 'dispatched-without-refusal'; else 'inconclusive' (no template got as far as the dispatch)."""
+    import io
     errs = []
-    for t in TEMPLATES:
+    seen = []
+    inner = numpoly.ndpoly.__array_function__
+
+    def watch(self, func, types, args, kwargs):
+        if func in numpoly.FUNCTION_COLLECTION:
+            return inner(self, func, types, args, kwargs)
         try:
-            out = fn(*t(p, q))
+            out = inner(self, func, types, args, kwargs)
         except numpoly.FeatureNotSupported:
-            return "refused", None
-        except Exception as exc:  # noqa: BLE001
-            errs.append(f"{type(exc).__name__}")
-            continue
-        return "returned", (t(p, q), out)
+            seen.append("refused")
+            raise
+        except BaseException as exc:
+            seen.append(f"raised {type(exc).__name__}: {str(exc)[:80]}")
+            raise
+        seen.append(f"returned {str(out)[:80]}")
+        return out
+    numpoly.ndpoly.__array_function__ = watch
+    try:
+        for t in TEMPLATES + [lambda p, q: (io.BytesIO(), p), lambda p, q: (io.BytesIO(), p, q), lambda p, q: (io.StringIO(), p)]:
+            del seen[:]
+            try:
+                out = fn(*t(p, q))
+            except numpoly.FeatureNotSupported:
+                return "refused", None
+            except Exception as exc:  # noqa: BLE001
+                if seen and seen[-1] != "refused":
+                    return "dispatched-without-refusal", (t(p, q), seen[-1])
+                errs.append(f"{type(exc).__name__}")
+                continue
+            return "returned", (t(p, q), out)
+    finally:
+        numpoly.ndpoly.__array_function__ = inner
     return "inconclusive", sorted(set(errs))
 
 
@@ -220,6 +246,10 @@ def run(report, tier, seed):
             viol.append((f"returned:{f.__module__}.{f.__name__}",
                          f"{f.__module__}.{f.__name__}{str(detail[0])[:80]} returned {str(detail[1])[:120]} instead of raising FeatureNotSupported",
                          {"function": f"{f.__module__}.{f.__name__}"}))
+        elif st == "dispatched-without-refusal":
+            viol.append((f"returned:{f.__module__}.{f.__name__}",
+                         f"{f.__module__}.{f.__name__}{str(detail[0])[:80]} was dispatched to ndpoly.__array_function__, which {detail[1]} "
+                         f"instead of raising FeatureNotSupported", {"function": f"{f.__module__}.{f.__name__}"}))
         else:
             inconclusive.append(f"{f.__module__}.{f.__name__}: {detail}")
     for u in ufs:
